@@ -22,6 +22,30 @@ reg('C09', 'model_checking',
     'Trusted: refpgp.wire (60 lines per codec, self-tested against GnuPG-made fixtures). Lengths between 70001 and 2^32 are covered only at boundary values.',
     'exhaustive input-space enumeration on the real code vs. reference codec', 'DESIGN.md 2/C09')
 
+reg('C12', 'model_checking',
+    'Complete enumeration of the S2K configuration alphabet (3 specifiers x 7 hashes x key sizes x all 256 coded counts for the sweep hashes / '
+    'edge counts for the rest x passphrase lengths 0..70, count-boundary lengths, 1000, 5000, UTF-8, raw bytes x salts) on the real derive_key, built '
+    'through setters and through the wire form, against an independent streaming implementation of RFC 4880 3.7.1.',
+    'Trusted: hashlib digests; refpgp.s2k (40 lines, RFC wording). Quick sweeps all 256 counts for SHA-1/AES-256 and SHA-256/AES-128 only; thorough sweeps all hashes.',
+    'exhaustive input-space enumeration on the real code vs. reference S2K', 'DESIGN.md 2/C12')
+
+reg('C17', 'model_checking',
+    'The whole issue lattice (2^11 values x every added bit), every verification-result object with 1-3 entries from a 16-value slice, and the '
+    'product key strength x hash x expired x revoked x subject kind x correct/incorrect x 1-3 signatures, all executed on the real code; '
+    'oracle: disqualifying bits always disqualify (upward closed), results partition entries exactly once, truthy iff none bad, expired or wrong => falsy.',
+    'Which conditions are disqualifying is taken from the property text (wrong signature, expired, disabled, invalid, no self-signature). Uses real time: fixture keys expired in 2017.',
+    'exhaustive enumeration of the verdict lattice and of verification configurations on the real code', 'DESIGN.md 2/C17')
+
+reg('C02', 'model_checking',
+    'Full product of 21 signature kinds x 10 signing keys (RSA 1024/2048/3072, DSA 1024/2048, ECDSA P-256/384/521/secp256k1, Ed25519) x 6 hashes, '
+    'plus option sets (none, singles, all compatible pairs, all together; thorough: triples) and a subject alphabet (every octet, empty, line-ending '
+    'styles, UTF-8 user ids, image attributes, keys of every algorithm). Each PGPy-made signature is strict-parsed, verified by an independent RFC 4880 '
+    '5.2.4 implementation from the received octets, re-imported and re-verified, and checked for the requested subpackets; each reference-made '
+    'signature over the same space must verify under PGPy.',
+    'Trusted: refpgp.sig (validated against 69 GnuPG-made fixture signatures at setup), OpenSSL curve arithmetic for ECDSA/Ed25519 on an externally '
+    'computed digest. RIPEMD-160 signatures and Brainpool curves cannot be exercised with the installed cryptography build.',
+    'exhaustive configuration enumeration on the real signer/verifier, differential against an independent RFC 4880 implementation', 'DESIGN.md 2/C02')
+
 ALL = ['C%02d' % i for i in range(1, 21)]
 
 NOT_YET = 'check not built yet in this revision of /verif (work in progress; see DESIGN.md section 8)'
